@@ -230,6 +230,148 @@ def run(model: RepoModel, rep, tier: str):
                                             "expression-mode compile, CALL opcodes rejected before eval(content, {}, {})")
 
 
+    check_accumulating_loops(model, rep, "C08.R4")
+
+    # ------------------------------------------------------------------ R5
+    rep.rule("C08.R5", "a rejected evaluation cannot stop the analyser: when the guarded evaluator rejects by exiting the process, every "
+                       "call of it sits in a try whose handler also catches SystemExit (bare except / BaseException)", 2)
+    exits = any(isinstance(x, ast.Call) and ((call_name(x) or "").endswith("error_and_quit") or call_name(x) in ("sys.exit", "exit", "quit", "os._exit"))
+                for x in walk_no_nested(se.node))
+    n_sites = 0
+    for mod in model.modules.values():
+        for f in mod.all_funcs():
+            if f.node is se.node:
+                continue
+            enc = None
+            for c in walk_no_nested(f.node):
+                if not (isinstance(c, ast.Call) and call_name(c) in ("util.strict_eval", "strict_eval")):
+                    continue
+                n_sites += 1
+                if enc is None:
+                    from ..model import enclosing_map
+                    enc = enclosing_map(f.node)
+                key = f"{mod.rel}::{f.qualname}::strict_eval rejection is contained"
+                cur, handlers = c, None
+                while id(cur) in enc:
+                    par = enc[id(cur)]
+                    if isinstance(par, ast.Try) and cur in par.body:
+                        handlers = par.handlers
+                        break
+                    cur = par
+                if not exits:
+                    rep.holds("C08.R5", key, mod.rel, c.lineno, "strict_eval rejects by raising, not by exiting")
+                    continue
+                if handlers is None:
+                    rep.violation("C08.R5", key, mod.rel, c.lineno,
+                                  "strict_eval rejects text that compiles to a call by exiting the process (error_and_quit -> sys.exit), and this "
+                                  "call is not inside a try: a string constant of the analysed program such as 'x\" + f() + \"' ends the analysis")
+                    continue
+
+                def catches_exit(h):
+                    if h.type is None:
+                        return True
+                    ts = h.type.elts if isinstance(h.type, ast.Tuple) else [h.type]
+                    return any((dotted(t) or "").split(".")[-1] in ("BaseException", "SystemExit") for t in ts)
+                if any(catches_exit(h) for h in handlers):
+                    rep.holds("C08.R5", key, mod.rel, c.lineno, "enclosing try catches SystemExit (bare except / BaseException)")
+                else:
+                    what = ", ".join(norm(h.type) for h in handlers if h.type is not None)
+                    rep.violation("C08.R5", key, mod.rel, c.lineno,
+                                  f"strict_eval rejects text that compiles to a call by exiting the process (error_and_quit -> sys.exit raises "
+                                  f"SystemExit), but the enclosing try only catches `{what}`: a string constant of the analysed program whose text "
+                                  f"contains call syntax terminates the whole analysis instead of being treated as data")
+    if n_sites < 2:
+        raise AnalysisError(f"only {n_sites} strict_eval call site(s) found (common_eval and the state-level folder expected)")
+
+
+SS = "core/stmt_states.py"
+GSS = "core/global_stmt_states.py"
+# early exits from loops that accumulate abstract states which are on the pinned tree and were read; keyed by function and guard
+ADJUDICATED_EXITS = {
+    ("StmtStates.call_stmt_state", "self.is_state_a_class_decl(each_state) or each_state.data_type == LIAN_INTERNAL.THIS or name_symbol.name == LIAN_INTERNAL.THIS"):
+        "delegation, not truncation: a callee name that may be a class hands the whole statement to new_object_stmt_state, which re-reads all name states",
+    ("StmtStates.slice_read_stmt_state", "start_value < end_value < array_length and array_state.array[start_value:end_value:step_value]"):
+        "an out-of-range combination contributes no element; whether the remaining combinations should still be tried is not decided here",
+}
+WIDEN_GUARD = ("tangping_flag", "STATE_TYPE_KIND.ANYTHING", "STATE_TYPE_KIND.UNSOLVED")
+WIDEN_PRE = ("tangping_flag = True", "make_state_tangping(", "STATE_TYPE_KIND.ANYTHING", "STATE_TYPE_KIND.UNSOLVED")
+
+
+def check_accumulating_loops(model: RepoModel, rep, RID: str):
+    """Shared by C08 (R4) and C09 (R4).  A transfer function computes the abstract value of its result as a union over the
+    abstract values of its sources; a loop that accumulates states must therefore either run to completion or, when it stops
+    early, widen the result to an explicit unknown.  `break`/`return` inside such a loop without widening keeps the first few
+    contributions only."""
+    from ..model import enclosing_map
+    rep.rule(RID, "state-accumulating loops in the transfer functions are exhaustive: an early exit (break/return) from a loop that adds "
+                  "abstract states to a result is preceded or guarded by a widening to unknown (ANYTHING/UNSOLVED state, tangping flag)", 12)
+    n_loops = 0
+    for rel, cname in ((SS, "StmtStates"), (GSS, "GlobalStmtStates")):
+        cls = model.cls(rel, cname)
+        for f in cls.methods.values():
+            enc = enclosing_map(f.node)
+
+            def accumulates(loop) -> bool:
+                for x in ast.walk(loop):
+                    if isinstance(x, ast.Call) and isinstance(x.func, ast.Attribute) and x.func.attr in ("add", "update") \
+                            and "states" in norm(x.func.value):
+                        return True
+                return False
+            loops = [n for n in walk_no_nested(f.node) if isinstance(n, ast.For) and accumulates(n)]
+            n_loops += len(loops)
+            if not loops:
+                continue
+            loopset = {id(l) for l in loops}
+            any_exit = False
+            for n in walk_no_nested(f.node):
+                if not isinstance(n, (ast.Break, ast.Return)):
+                    continue
+                cur, inside, nearest = n, False, None
+                while id(cur) in enc:
+                    cur = enc[id(cur)]
+                    if isinstance(cur, (ast.For, ast.While)):
+                        if nearest is None:
+                            nearest = cur
+                        if id(cur) in loopset:
+                            inside = True
+                if not inside:
+                    continue
+                any_exit = True
+                par = enc[id(n)]
+                blk = None
+                for fld in ("body", "orelse", "finalbody"):
+                    b = getattr(par, fld, None)
+                    if isinstance(b, list) and n in b:
+                        blk = b
+                pre = blk[:blk.index(n)] if blk else []
+                # guard: the chain of enclosing `if` tests up to the nearest loop
+                guards = []
+                cur = n
+                while id(cur) in enc and enc[id(cur)] is not nearest:
+                    cur = enc[id(cur)]
+                    if isinstance(cur, ast.If):
+                        guards.append(norm(cur.test))
+                gtxt = guards[0] if guards else "<unconditional>"
+                key = f"{rel}::{cname}.{f.name}::{'break' if isinstance(n, ast.Break) else 'return'} under `{gtxt[:110]}`"
+                widened = any(w in g for g in guards for w in WIDEN_GUARD) or any(w in " ".join(ast.unparse(s_).split()) for s_ in pre for w in WIDEN_PRE)
+                if isinstance(n, ast.Return) and n.value is not None and "interruption" in norm(n.value):
+                    widened = True      # the statement is re-evaluated after the callee has been analysed
+                adj = ADJUDICATED_EXITS.get((f"{cname}.{f.name}", gtxt))
+                if widened:
+                    rep.holds(RID, key, rel, n.lineno, "early exit guarded/preceded by a widening to unknown")
+                elif adj:
+                    rep.info(RID, key, rel, n.lineno, "adjudicated: " + adj)
+                else:
+                    rep.violation(RID, key, rel, n.lineno,
+                                  f"{cname}.{f.name} leaves a loop that accumulates abstract states early (`{norm(n)[:50]}` under `{gtxt[:90]}`) "
+                                  f"without widening the result to unknown: the sources not yet visited contribute nothing, so a value that "
+                                  f"reaches this statement on some path is missing from the computed set")
+            if not any_exit:
+                rep.holds(RID, f"{rel}::{cname}.{f.name}::{len(loops)} accumulating loop(s) run to completion", rel, loops[0].lineno,
+                          "no break/return inside")
+    rep.analysed["accumulating loops"] = n_loops
+
+
 # ---------------------------------------------------------------- self-test mutants
 def _t(old, new, count=1):
     return lambda src: __import__("sa.mutate", fromlist=["x"]).text_replace(src, old, new, count)
@@ -245,4 +387,17 @@ MUTANTS = [
     ("state-value-exec", "core/stmt_states.py", _t("        operand_index = status.used_symbols[0]\n        operand_symbol = self.frame.symbol_state_space[operand_index]\n",
                                                    "        operand_index = status.used_symbols[0]\n        operand_symbol = self.frame.symbol_state_space[operand_index]\n        if stmt.operator: eval(str(stmt.operand) + stmt.operator + str(stmt.operand2))\n"),
      "assign_stmt_state"),
+    ("param-binding-first-match-only", "core/global_stmt_states.py",
+     _t("                    self.add_arg_to_param_edge(each_pair, status, parameter_name_symbol)\n",
+        "                    self.add_arg_to_param_edge(each_pair, status, parameter_name_symbol)\n                    break\n"),
+     "GlobalStmtStates.parameter_decl_stmt_state::break"),
+    ("field-read-first-receiver-only", "core/stmt_states.py",
+     _t("                defined_symbol_states.update(receiver_state.tangping_elements)\n", "                defined_symbol_states.update(receiver_state.tangping_elements)\n                break\n"),
+     "forin_stmt_state::break"),
+    ("rejection-escapes", "core/stmt_states.py",
+     _t('            value = util.strict_eval(f"{tmp_value1} {operator} {tmp_value2}")\n        except:', '            value = util.strict_eval(f"{tmp_value1} {operator} {tmp_value2}")\n        except Exception:'),
+     "compute_two_states::strict_eval rejection is contained"),
+    ("rejection-escapes-frontend", "lang/common_parser.py",
+     _t("            return str(util.strict_eval(input_string))\n        except:", "            return str(util.strict_eval(input_string))\n        except (SyntaxError, ValueError, NameError, TypeError):"),
+     "common_eval::strict_eval rejection is contained"),
 ]
